@@ -61,7 +61,7 @@ def mutants(rnd):
     rows = []
     for mid in sorted(ms):
         d = ms[mid]
-        if not re.fullmatch(r'C\d\d[abc]' + (rnd if rnd != '1' else ''), mid): continue
+        if not re.fullmatch(r'C\d\d[abcd]' + (rnd if rnd != '1' else ''), mid): continue
         exp = d.get('expected_detection', {})
         own = d.get('property')
         if own in exp: rep = exp[own]
@@ -75,7 +75,7 @@ def mutants(rnd):
     hdr = '| mutant | files touched | needs to manifest (from the sub-agent\'s notes, abridged) | reported on arrival | reported now by |\n|---|---|---|---|---|\n'
     return hdr + '\n'.join(rows)
 def stats(rnd):
-    ms = metas(); allids = [k for k in sorted(ms) if re.fullmatch(r'C\d\d[abc]' + (rnd if rnd != '1' else ''), k)]
+    ms = metas(); allids = [k for k in sorted(ms) if re.fullmatch(r'C\d\d[abcd]' + (rnd if rnd != '1' else ''), k)]
     ids = [k for k in allids if ms[k].get('confirmed') is not False]
     own_arr = sum(1 for k in ids if ms[k].get('detected_on_arrival'))
     any_arr = sum(1 for k in ids if ms[k].get('detected_on_arrival') or any(v for v in (ms[k].get('arrival_detection_all_properties') or {}).values()))
@@ -99,12 +99,12 @@ doc = head + '\n\n' + section4() + '\n' + tail
 doc = doc.replace('<!--COUNTS-->', counts())
 doc = re.sub(r'<!--MUTANTS:round=(\w+)-->', lambda m: mutants(m.group(1)), doc)
 doc = doc.replace('<!--DEFECTS-REINTRODUCED-->', reintroduced())
-doc = doc.replace('<!--UNDETECTED-->', ', '.join(k for k in sorted(metas()) if re.fullmatch(r'C\d\d[abc]\d?', k) and not metas()[k].get('expected_detection') and metas()[k].get('confirmed') is not False))
+doc = doc.replace('<!--UNDETECTED-->', ', '.join(k for k in sorted(metas()) if re.fullmatch(r'C\d\d[abcd]\d?', k) and not metas()[k].get('expected_detection') and metas()[k].get('confirmed') is not False))
 kf = json.load(open(f'{V}/known_findings.json'))['findings']
 doc = doc.replace('<!--ND-->', str(len(set(f['commit'] for f in kf if f['status'] == 'fixed'))))
 vi = json.load(open(f'{V}/selftest/variants/index.json')); bi = json.load(open(f'{V}/selftest/benign/index.json'))
 doc = doc.replace('<!--NVAR-->', str(sum(1 for e in vi if e['status'] == 'ok'))).replace('<!--NBEN-->', str(sum(1 for e in bi if e['status'] == 'ok')))
-doc = doc.replace('<!--NMUT-->', str(sum(1 for k in metas() if re.fullmatch(r'C\d\d[abc]\d?', k))))
+doc = doc.replace('<!--NMUT-->', str(sum(1 for k in metas() if re.fullmatch(r'C\d\d[abcd]\d?', k))))
 doc = re.sub(r'<!--STATS:round=(\w+)-->', lambda m: stats(m.group(1)), doc)
 open(f'{V}/DESIGN.md', 'w').write(doc)
 print('DESIGN.md', len(doc.splitlines()), 'lines;', counts())
